@@ -439,5 +439,8 @@ pub fn run_c20(p: &Params) -> Outcome {
         }
     }));
     let _: Option<VecHistory> = None;
+    // (d) the races around the last owner (drop || upgrade, two last clones, into_shared || subscriber drop)
+    // with a payload registered in a process-wide table, every order at the pause points
+    out.merge(crate::runners_thr::run_c20_threads(p));
     out
 }
